@@ -15,8 +15,10 @@
    Quantifiers: every finite operation sequence with any parents, fractions, group ids, types, explicit or
    automatic ids, with or without proximal point, any reorder/optimise flags.  No length bound. *)
 From Coq Require Import String List ZArith Bool.
-From LNML Require Import Model.Groups Model.Builder Proofs.GroupsP Proofs.BuilderSegP Proofs.BuilderGroupP
-     Proofs.BuilderOrderP Proofs.BuilderP Proofs.BuilderC15P Proofs.BuilderValidP.
+From LNML Require Import Lib.Dec Model.Gds Model.Validate Model.Xsd.
+From LNML Require Import Model.Groups Model.Builder Model.BuilderTree Proofs.GroupsP Proofs.BuilderSegP Proofs.BuilderGroupP
+     Proofs.BuilderOrderP Proofs.BuilderP Proofs.BuilderC15P Proofs.BuilderValidP Proofs.BuilderTreeP.
+From Run Require Import Gen_Bindings Gen_Schema Gen_Validate Inst_C15.
 Import ListNotations.
 Open Scope string_scope.
 
@@ -76,6 +78,88 @@ Theorem C15_valid_partial : forall factory ops c c',
   valid_cell c' = true.
 Proof. exact builder_valid_partial. Qed.
 Print Assumptions C15_valid_partial.
+
+(* validity clause, FULL for the component tree of the state (through C02's generic theorems, on the tables regenerated
+   from nml.py / the XSD in this run): if the finished state satisfies the model's valid_cell and the decidable
+   tree_facets (segment names printable, parent ids >= 0, neuroLexIds among the builder's own four, property entries'
+   `valid` flag truthful, every list shorter than generateDS's "unbounded" 9999999) then the Cell component tree it
+   stands for - cell_tree, compared field for field with the dumped REAL cell on every run - passes
+   validate(recursive or not) with no message and is exported (it does not raise) as an element valid for the schema.
+   Float hypotheses as in C02_valid (CPython formatting) plus: decimal literals are finite and 0, .25, .5, .75, 1 are
+   ordered as decimals (C15_float_hypotheses_hold: true of the decimal instance). *)
+Theorem C15_valid :
+  forall (F : Type) (F_eqb F_ltb : F -> F -> bool) (F_of_dec : dec -> F) (parse_float : string -> option F)
+         (finite : F -> bool) (fmt_float fmt_double : F -> string),
+    (forall f, finite f = true -> parse_float (fmt_double f) = Some f) ->
+    (forall f, finite f = true ->
+       exists g, parse_float (fmt_float f) = Some g /\ finite g = true /\
+                 forall d, (snd d <= 15)%nat ->
+                           (F_ltb f (F_of_dec d) = false -> F_ltb g (F_of_dec d) = false) /\
+                           (F_ltb (F_of_dec d) f = false -> F_ltb (F_of_dec d) g = false)) ->
+    (forall d, finite (F_of_dec d) = true) -> float_order_ok F F_eqb F_ltb F_of_dec ->
+    forall (mid bid : string) (c : cell) (rec : bool) (n : nat),
+      nmlid mid = true -> nmlid bid = true -> valid_cell c = true -> tree_facets c = true ->
+      validate F_eqb F_ltb F_of_dec parse_float Gen_Validate.V (cell_tree F F_of_dec mid bid c) rec = [] /\
+      exists x, export F F_eqb F_of_dec fmt_float fmt_double (4 + n) Gen_Bindings.T "cell" (cell_tree F F_of_dec mid bid c) = Some x /\
+                x_tag x = "cell" /\
+                xsd_valid F_eqb F_ltb F_of_dec parse_float finite (4 + n) Gen_Schema.S "Cell" x = true.
+Proof. exact Inst_C15.valid_here. Qed.
+Print Assumptions C15_valid.
+
+(* ... end to end: for every operation sequence whose inputs meet the schema facets (C15_valid_partial supplies valid_cell).
+   What remains a hypothesis on the finished state: tree_facets c' (not yet derived from the operations' arguments). *)
+Theorem C15_valid_run :
+  forall (F : Type) (F_eqb F_ltb : F -> F -> bool) (F_of_dec : dec -> F) (parse_float : string -> option F)
+         (finite : F -> bool) (fmt_float fmt_double : F -> string),
+    (forall f, finite f = true -> parse_float (fmt_double f) = Some f) ->
+    (forall f, finite f = true ->
+       exists g, parse_float (fmt_float f) = Some g /\ finite g = true /\
+                 forall d, (snd d <= 15)%nat ->
+                           (F_ltb f (F_of_dec d) = false -> F_ltb g (F_of_dec d) = false) /\
+                           (F_ltb (F_of_dec d) f = false -> F_ltb (F_of_dec d) g = false)) ->
+    (forall d, finite (F_of_dec d) = true) -> float_order_ok F F_eqb F_ltb F_of_dec ->
+    forall (factory : bool) (ops : list op) (c c' : cell) (mid bid : string) (rec : bool) (n : nat),
+      run true ops (init_of factory) = BRet c -> run_ok true ops (init_of factory) = true -> Forall op_facets ops ->
+      finish c = BRet c' -> segs c <> [] ->
+      has_kind SpikeThresh c = true -> has_kind InitMembPotential c = true -> has_kind SpecificCapacitance c = true ->
+      tree_facets c' = true -> nmlid mid = true -> nmlid bid = true ->
+      validate F_eqb F_ltb F_of_dec parse_float Gen_Validate.V (cell_tree F F_of_dec mid bid c') rec = [] /\
+      exists x, export F F_eqb F_of_dec fmt_float fmt_double (4 + n) Gen_Bindings.T "cell" (cell_tree F F_of_dec mid bid c') = Some x /\
+                x_tag x = "cell" /\
+                xsd_valid F_eqb F_ltb F_of_dec parse_float finite (4 + n) Gen_Schema.S "Cell" x = true.
+Proof. exact Inst_C15.valid_run. Qed.
+Print Assumptions C15_valid_run.
+
+(* generic core (any tables satisfying table_facts): valid_cell and tree_facets imply schema conformance of the tree *)
+Theorem C15_tree_conforms :
+  forall (T : tables) (S0 : schema) (good : string -> bool) (F : Type) (F_eqb F_ltb : F -> F -> bool) (F_of_dec : dec -> F)
+         (parse_float : string -> option F) (finite : F -> bool),
+    table_facts T S0 good F F_eqb F_ltb F_of_dec parse_float finite ->
+    (forall d, finite (F_of_dec d) = true) -> float_order_ok F F_eqb F_ltb F_of_dec ->
+    forall (f : nat) (mid bid : string) (c : cell),
+      nmlid mid = true -> nmlid bid = true -> valid_cell c = true -> tree_facets c = true ->
+      conformsb F_eqb F_ltb F_of_dec parse_float finite good (4 + f) T S0 (cell_tree F F_of_dec mid bid c) = true.
+Proof. exact tree_conforms. Qed.
+Print Assumptions C15_tree_conforms.
+
+(* the assumed facts hold of this run's tables, for both agreement predicates of C02 *)
+Theorem C15_table_facts_here :
+  forall (F : Type) (F_eqb F_ltb : F -> F -> bool) (F_of_dec : dec -> F) (parse_float : string -> option F) (finite : F -> bool),
+    table_facts Gen_Bindings.T Gen_Schema.S (agree_val_cls Gen_Validate.V Gen_Bindings.T Gen_Schema.S) F F_eqb F_ltb F_of_dec parse_float finite /\
+    table_facts Gen_Bindings.T Gen_Schema.S (agree_exp_cls Gen_Bindings.T Gen_Schema.S) F F_eqb F_ltb F_of_dec parse_float finite.
+Proof. exact (fun F a b c d e => conj (Inst_C15.facts_val F a b c d e) (Inst_C15.facts_exp F a b c d e)). Qed.
+Print Assumptions C15_table_facts_here.
+
+Theorem C15_float_hypotheses_hold :
+  (forall d : dec, (fun _ : dec => true) ((fun d : dec => d) d) = true) /\ float_order_ok dec dec_veqb dec_ltb (fun d => d).
+Proof. exact Inst_C15.float_hypotheses_decimal. Qed.
+Print Assumptions C15_float_hypotheses_hold.
+
+Theorem C15_valid_hypotheses_satisfiable :
+  exists c c', run true typical_ops init_factory = BRet c /\ finish c = BRet c' /\
+    valid_cell c' = true /\ tree_facets c' = true.
+Proof. exact Inst_C15.typical_tree_hypotheses. Qed.
+Print Assumptions C15_valid_hypotheses_satisfiable.
 
 (* hypotheses satisfiable: a cell with soma, two unbranched sections (deferred reorder/optimise), an
    explicit id, a plain group and the basic biophysical properties; the model also predicts it valid *)
